@@ -137,6 +137,10 @@ func runC06(c *Ctx) {
 	c.Rule("R06c", "digest construction: NewHashFile feeds Name() and Bytes() of every file into one running hash created outside the loop; HashFile.Sum covers N and H; MarshalText/UnmarshalText agree on the h1: prefix; UnmarshalText verifies the header sum and returns ErrChecksumMismatch", 4)
 	c.Rule("R06g", ruleTextSumLineSplit, 1)
 	checkSumLineSplit(c, "R06g")
+	c.Rule("R06i", "sibling agreement: every implementation of migrate.Dir.Files orders the files by name alone (same rule as C20/R20c): the directory hash is cumulative over that order, so a Dir that orders by another key first (version, then name) computes a different sum for the same files and an untouched directory fails validation after it is copied into / archived through that Dir", 3)
+	checkFilesOrdering(c, "R06i")
+	c.Rule("R06j", ruleTextConfigBeforeFormat, 4)
+	checkConfigBeforeFormat(c, "R06j")
 	c.Rule("R06h", ruleTextWriteReplaces, 2)
 	checkWriteReplaces(c, "R06h")
 	c.Rule("R06d", "migrate.Validate: compares stored and recomputed sums; every path through the mismatch branch returns a non-nil error; Executor.Pending validates before reading revisions or files", 3)
